@@ -23,7 +23,14 @@ func main() {
 	}
 	switch os.Args[1] {
 	case "keys":
+		n := 40
+		if len(os.Args) > 2 {
+			fmt.Sscanf(os.Args[2], "%d", &n)
+		}
 		for i, kp := range interopKeys() {
+			if i >= n {
+				break
+			}
 			fmt.Printf("%d %s\n", i, hex.EncodeToString(kp[1]))
 		}
 	case "run":
